@@ -168,6 +168,20 @@ def check_programs(items, max_steps=3000):
     return {"evaluations": len(items), "disagreements": disagreements, "violations": violations, "stats": stats}
 
 
+def boundary_data_items():
+    """data segments that end just below, at and beyond the last cell 0xFFFF, for both data-segment starts (default and
+    --big-stack): whatever the checker accepts must stay inside the 2^16 cells when the data statements are executed"""
+    items = []
+    for big in (False, True):
+        cap = 65536 - (0xC167 if big else 0xC001)
+        for n in sorted({cap - 6, cap - 5, cap - 4, cap - 1, cap, cap + 1, cap + 300, 65536 - 0xC001 - 5, 65536 - 0xC001 - 1}):
+            for tail in ('INTEGER(7)\nLP_STRING("abc")\n', "INTEGER(7)\n", 'LP_STRING("abcdefgh")\n', "DSKIP(3)\nINTEGER(1)\n"):
+                for use in ("DLABEL(e)\nSET(R1, e)\nLOAD(R2, 0, R1)\n", "SET(R1, 1)\n", "DLABEL(e)\nSET(R1, 1)\n"):
+                    text = "DSKIP({})\n{}{}".format(n, tail, use)
+                    items.append({"text": text, "opts": {"big_stack": True} if big else {}, "features": ["boundary-data"], "gen_seed": 0})
+    return items
+
+
 def gen_items(seed, n, **kw):
     items = []
     for k in range(n):
